@@ -67,6 +67,16 @@ func (k *c16Sink) waitBarrier(id int, max time.Duration) bool {
 	return true
 }
 
+// feedRow is the row as the caller sends it: a private copy, plus (Collide) a payload field whose name equals
+// the table qualifier of the statement.
+func (c *c16Case) feedRow(row Row) Row {
+	cp := c16Copy(row)
+	if c.Collide {
+		cp[c.T] = fmt.Sprintf("payload-%v", row["id"])
+	}
+	return cp
+}
+
 func c16Copy(row Row) Row {
 	cp := make(Row, len(row))
 	for k, v := range row {
@@ -171,7 +181,7 @@ func execC16(ctx *core.Ctx, c *c16Case) {
 		for i := 0; i < n; i++ {
 			nextBar++
 			last = nextBar
-			row := c.barrierRow(last)
+			row := c.feedRow(c.barrierRow(last))
 			_, _ = c16Safe(func() error { s.Emit(row); return nil })
 		}
 		want := last
@@ -215,7 +225,7 @@ func execC16(ctx *core.Ctx, c *c16Case) {
 				var got map[string]any
 				err, panicked := c16Safe(func() error {
 					var e error
-					got, e = s.EmitSync(c16Copy(op.Row))
+					got, e = s.EmitSync(c.feedRow(op.Row))
 					return e
 				})
 				if err != nil {
@@ -233,7 +243,7 @@ func execC16(ctx *core.Ctx, c *c16Case) {
 					colsOK += len(c.out)
 				}
 			} else {
-				row := c16Copy(op.Row)
+				row := c.feedRow(op.Row)
 				_, _ = c16Safe(func() error { s.Emit(row); return nil })
 				pend = append(pend, c16Pending{row: op.Row, exp: exp, key: key})
 				sinceBar++
